@@ -473,7 +473,17 @@ def annotate(
 
     result = 0
     for path in paths:
-        binary = is_binary(str(path))
+        try:
+            binary = is_binary(str(path))
+        except OSError as error:
+            # For instance a directory that is called FILE.license.
+            click.echo(
+                _("Error: Could not read '{path}': {error}").format(
+                    path=path, error=error.strerror
+                )
+            )
+            result += 1
+            continue
         created_dot_license = False
         if binary or is_uncommentable(path) or force_dot_license:
             new_path = _determine_license_suffix_path(path)
